@@ -225,7 +225,15 @@ class StmtMixin:
 
     def s_Try(self, node, env, path):
         if node.finalbody:
-            raise Unsupported("try/finally")
+            # the final block runs however the protected block is left (normally, by an exception, return, break, continue)
+            inner = ast.Try(body=node.body, handlers=node.handlers, orelse=node.orelse, finalbody=[])
+            try:
+                self.s_Try(inner, env, path)
+            except (PyRaise, _Return, _Break, _Continue):
+                self.exec_block(node.finalbody, env, path)
+                raise
+            self.exec_block(node.finalbody, env, path)
+            return
         try:
             self.exec_block(node.body, env, path)
         except PyRaise as exc:
